@@ -101,9 +101,11 @@ func (g *sGraph) emit(m *openfgav1.AuthorizationModel, td *openfgav1.TypeDefinit
 			default:
 				target = g.node(r.GetType()+"#"+r.GetRelation(), sRel)
 			}
+			// the unconditioned marker is kept apart from a condition that happens to be NAMED like it ("none"): the
+			// property speaks of the set of condition names plus the marker, [user, user with none] has two entries
 			cond := r.GetCondition()
 			if cond == "" {
-				cond = NoCond
+				cond = "\x00" + NoCond
 			}
 			// one edge per distinct target of THIS direct assignment (conditions folded into it); a direct assignment
 			// written twice under one operator (JSON only) has its own edges, like any repeated operand
